@@ -50,7 +50,7 @@ def check(run):
     res = E.run_sessions(run, sessions)
     seen = set()
     for s, r in zip(sessions, res):
-        run.case(s[0][:300], True)
+        run.case(s[0][:300], True, key=s[0])
         bad = E.judge_files(s, r, tag="hints")
         for oi, lg in r["lean"].items():
             if lg and " #" in lg:
